@@ -37,7 +37,7 @@ def frame(f):
     return o
 
 
-def behaviours_to_script(behs, path):
+def behaviours_to_script(behs, path, epilogue=True):
     n = 0
     with open(path, "w") as out:
         def w(o):
@@ -79,6 +79,12 @@ def behaviours_to_script(behs, path):
                     else:
                         w({"ex": {"stopstart": True}})
             flush()
+            if started and epilogue:
+                # let the client show where the last scripted event left it: the connection (re)opens and one more
+                # query is accepted (its type, version, session and serial are then checked by the trace spec)
+                w({"open": "ok"})
+                w({"open": "ok"})
+                w({"ex": {"alts": [{"q": "any", "items": [{"fault": "timeout"}]}]}})
             if started:
                 w({"run": True})
     return n
